@@ -154,6 +154,15 @@ class Prop:
         # diamond with and without properties at the top
         for top in ([], [(9, 0, L)]):
             cs.append(Case(self.mk(('O', 0, [1, 2], []), {1: ('O', 0, [3], [(1, 0, L)]), 2: ('O', 0, [3], [(2, 0, L)]), 3: ('O', 0, [], top)}), 'diamond'))
+        # every case so far also with every type registered on every type (objects of their own)
+        for n, c in enumerate(list(cs)):
+            if c.klass != 'exh-3obj' or n % 3 == 0:
+                cs.append(Case(c.line + ' all', c.klass + '-all'))
+        # a root that only REFERS to the heirs (the inheritance happens in the registered types)
+        for k in range(1, 5):
+            types = {i: ('O', 0, [i + 1] if i < k + 1 else [], [(i, i % 2, L)]) for i in range(1, k + 2)}
+            for style in ('root', 'all'):
+                cs.append(Case(self.mk(('O', 0, [], [(0, 0, L)]), types, style), 'heirs-among-the-types-%s' % style))
         # random
         nrand = 3000 if tier == 'quick' else 60000
         for _ in range(nrand):
@@ -255,6 +264,17 @@ class Prop:
         exp = ','.join('%d:%d:%d' % p for p in want[1]) or '-'
         if self.norm_keys(keys) != exp:
             return 'compiled properties %s, expected own + inherited = %s' % (self.norm_keys(keys), exp)
+        # the registered types as the compiled root knows them (a reference from the root reaches these objects)
+        tk = re.search(r' tkeys=(\S+)', out)
+        if tk:
+            for part in tk.group(1).split(';'):
+                nm, ks = part.split('=', 1)
+                i = int(nm[2:])
+                if i in types and types[i][0] == 'O':
+                    texp = ','.join('%d:%d:%d' % p for p in merged(types[i], types, [i])[0]) or '-'
+                    if self.norm_keys(ks) != texp:
+                        return ('type %s as the compiled root schema knows it has the properties %s, expected own + inherited = %s'
+                                % (nm, self.norm_keys(ks), texp))
         kp = '@Kx' if '22404b78' in case.line.split(' || ')[1] else 'Kx'       # "@Kx in the schema text
         ek = ','.join('%s%d' % (kp, p[0]) for p in want[1]) or '-'
         if ex is not None and ex != ek:
